@@ -90,7 +90,12 @@ class HTMLTokenizer(object):
             c = self.stream.char()
 
         # Convert the set of characters consumed to an int.
-        charAsInt = int("".join(charStack), radix)
+        try:
+            charAsInt = int("".join(charStack).lstrip("0") or "0", radix)
+        except ValueError:
+            # Python limits the number of digits int() converts; a number
+            # that long is beyond the last code point anyway
+            charAsInt = 0x110000
 
         # Certain characters get replaced with others
         if charAsInt in replacementCharacters:
